@@ -317,7 +317,7 @@ class Workers(object):
 class C08(Prop):
     id = "C08"
     lean_module = "ProductMD.Properties.C08"
-    quick_budget = 260
+    quick_budget = 700
     thorough_budget = 2400
     rule = ("per case one content x k construction orders (seeded shuffles of every unordered container) x S hash seeds in separate "
             "interpreter processes x 1-3 dumps: all byte strings equal, equal to the Lean model's rendering of every order; JSON text = "
